@@ -4,7 +4,93 @@ def _codec_runs(tier, seed, replay):
     n = 4000 if tier == "quick" else 60000
     return [["codec", "--seed", str(seed), "--n", str(n)]]
 
+OPLOG_BRIDGE = ["HC.Bridge.Oplog.sizes", "HC.Bridge.Oplog.initial_bits", "HC.Bridge.Oplog.next_slot",
+                "HC.Bridge.Oplog.current_bit", "HC.Bridge.Oplog.leader_masks", "HC.Bridge.Oplog.entry_flags",
+                "HC.Bridge.Oplog.header_layout"]
+STORES_BRIDGE = ["HC.Bridge.Stores.tree_nodes", "HC.Bridge.Stores.bitfield_pages", "HC.Bridge.Stores.hash_scheme",
+                 "HC.Bridge.Stores.flush_cadence"]
+LOG_TRUSTED = ["dependency crates are modelled, not verified: flat-tree (ported), compact-encoding, random-access-* (flat file model), crc32fast/blake2/ed25519-dalek (re-implemented in Lean; compared byte-for-byte incl. signatures)",
+               "the Either-instruction read protocol, IntMap/RefCell containers and async plumbing are not modelled (the model reads its node store directly)",
+               "integers are Nat in the model; u64 wrap-around is not represented"]
+
+def S(seed, k):
+    return str(seed * 1000 + k)
+
+def _c01_runs(tier, seed, replay):
+    if tier == "quick":
+        return [["log", "--kind", "exhaustive", "--depth", "3", "--n", "100000"],
+                ["log", "--seed", S(seed, 1), "--n", "120", "--maxops", "30"],
+                ["log", "--seed", S(seed, 2), "--n", "120", "--maxops", "30"],
+                ["log", "--seed", S(seed, 3), "--n", "30", "--maxops", "60", "--big", "1"],
+                ["log", "--kind", "large", "--seed", S(seed, 4), "--n", "2"]]
+    return ([["log", "--kind", "exhaustive", "--depth", "4", "--n", "100000"]]
+            + [["log", "--seed", S(seed, 10 + i), "--n", "250", "--maxops", "40"] for i in range(12)]
+            + [["log", "--seed", S(seed, 30 + i), "--n", "40", "--maxops", "120", "--big", "1"] for i in range(4)]
+            + [["log", "--kind", "large", "--seed", S(seed, 40 + i), "--n", "4"] for i in range(4)])
+
+def _c02_runs(tier, seed, replay):
+    if tier == "quick":
+        return [["crash", "--kind", "exhaustive", "--depth", "3", "--n", "100000"],
+                ["crash", "--seed", S(seed, 1), "--n", "40", "--maxops", "14"],
+                ["crash", "--seed", S(seed, 2), "--n", "40", "--maxops", "14"],
+                ["crash", "--kind", "large", "--seed", S(seed, 4), "--n", "1"]]
+    return ([["crash", "--kind", "exhaustive", "--depth", "4", "--n", "3000"]]
+            + [["crash", "--seed", S(seed, 10 + i), "--n", "120", "--maxops", "16"] for i in range(10)]
+            + [["crash", "--kind", "large", "--seed", S(seed, 40 + i), "--n", "2"] for i in range(2)])
+
+def _c07_runs(tier, seed, replay):
+    if tier == "quick":
+        return [["torn", "--seed", S(seed, 1), "--n", "8", "--maxops", "9"],
+                ["torn", "--seed", S(seed, 2), "--n", "8", "--maxops", "9"],
+                ["torn", "--seed", S(seed, 3), "--n", "8", "--maxops", "9"],
+                ["torn", "--kind", "exhaustive", "--depth", "2", "--n", "1000"]]
+    return ([["torn", "--seed", S(seed, 10 + i), "--n", "30", "--maxops", "12"] for i in range(14)]
+            + [["torn", "--kind", "exhaustive", "--depth", "3", "--n", "400"]])
+
+def _c08_runs(tier, seed, replay):
+    if tier == "quick":
+        return [["log", "--kind", "large", "--seed", S(seed, 1), "--n", "4"],
+                ["crash", "--kind", "large", "--seed", S(seed, 2), "--n", "1"],
+                ["log", "--seed", S(seed, 3), "--n", "150", "--maxops", "30"],
+]
+    return ([["log", "--kind", "large", "--seed", S(seed, 10 + i), "--n", "4"] for i in range(6)]
+            + [["crash", "--kind", "large", "--seed", S(seed, 20 + i), "--n", "2"] for i in range(4)]
+            + [["log", "--seed", S(seed, 30 + i), "--n", "300", "--maxops", "40"] for i in range(4)]
+)
+
 PROPS = {
+    "C01": dict(
+        theorems=["HC.C01.entry_reopen", "HC.C01.header_reopen", "HC.C01.frame_reopen", "HC.C01.held_after", "HC.C01.refines_partial"],
+        bridge_modules=["HC.Bridge.Oplog", "HC.Bridge.Stores"], bridging=OPLOG_BRIDGE + STORES_BRIDGE,
+        runs=_c01_runs,
+        partial="the whole-history refinement to the list model (C01.Full) is not proved yet; proved: every entry/header/frame the crate writes reads back exactly, held-set updates are exact. The refinement itself is validated by the correspondence run.",
+        rule="histories over {append, batch 0..5, clear(start<end,start<len,end maybe beyond), get/has of any u64, info, reopen, probe}: bounded-exhaustive over a 10-symbol alphabet (full probe after each step), seeded-random long ones (blocks 0 B..70 KB), large cores crossing 8192/32768/65536; every observation and every storage operation (store, offset, bytes) is compared with the Lean model and with the harness's own list model. distinct = distinct full transcripts; non-trivial = at least 3 operations",
+        trusted=LOG_TRUSTED, assumptions=["clear is called with start < end and start < length (the property's quantifier)"],
+    ),
+    "C02": dict(
+        theorems=["HC.C02.reopen_exact", "HC.C02.append_commit", "HC.C02.flush_atomic", "HC.C02.fresh", "HC.C02.reachable", "HC.C02.crash_atomic_partial"],
+        bridge_modules=["HC.Bridge.Oplog", "HC.Bridge.Stores"], bridging=OPLOG_BRIDGE + STORES_BRIDGE,
+        runs=_c02_runs,
+        partial="proved: the oplog commit protocol (entry append = commit point; header switch atomic at every crash point; stale entries invisible). Not proved: idempotence of replay over partially flushed bitfield/tree/data files — validated by reopening every journal prefix on the real crate and on the model.",
+        rule="for every history, after every mutating call, the storage is rebuilt from every prefix of that call's journal of write/delete/truncate operations, reopened with open(true), probed, and compared with the list model's before and after states and with the Lean model's prediction; some recovered cores are continued. distinct = distinct transcripts",
+        trusted=LOG_TRUSTED, assumptions=["each storage operation is atomic and persisted in issue order"],
+    ),
+    "C07": dict(
+        theorems=["HC.C07.torn_entry_ignored", "HC.C07.readEntries_stops", "HC.C07.torn_header_falls_back"],
+        bridge_modules=["HC.Bridge.Oplog"], bridging=OPLOG_BRIDGE,
+        runs=_c07_runs,
+        partial="the fallback for a torn header slot assumes the CRC rejects the torn slot (CrcDetects); torn entries need no such assumption (length check). Torn bitfield/tree/data writes are covered by the correspondence run only.",
+        rule="as C02, and for every crash point whose next operation is a write: every proper byte prefix (writes <= 64 bytes) or cuts at 1,3,4,5,7,8,9,12, half, last byte, every 512 bytes and 4 seeded cuts",
+        trusted=LOG_TRUSTED, assumptions=["CrcDetects: a torn header slot does not pass the checksum unless it equals the old or the new frame"],
+    ),
+    "C08": dict(
+        theorems=["HC.C08.has_after_update", "HC.C08.contig_step", "HC.C08.clear_rule_eq", "HC.C08.contig_reachable", "HC.C08.full"],
+        bridge_modules=["HC.Bridge.Stores"], bridging=STORES_BRIDGE,
+        runs=_c08_runs,
+        partial="proved for every sequence of range updates; that the Rust page/word/mask arithmetic realises setRange and that pages (de)serialise exactly is validated by the correspondence run (cores up to 70k blocks, has() scanned on every index)",
+        rule="cores filled past 8192, 32768 and 65536 blocks, clears straddling word/page edges, reopen and crash recovery in between; has() on every index below length+2 and on boundary indices of the next pages; contiguous_length compared with the first missing index",
+        trusted=LOG_TRUSTED, assumptions=["range updates have positive length"],
+    ),
     "C11": dict(
         theorems=["HC.C11.node", "HC.C11.requestBlock", "HC.C11.requestSeek", "HC.C11.requestUpgrade",
                   "HC.C11.dataBlock", "HC.C11.dataHash", "HC.C11.dataSeek", "HC.C11.dataUpgrade"],
